@@ -80,3 +80,12 @@ pub fn btree_into_vec_g1(m: BTreeMap<Option<usize>, G1>) -> (r: Vec<(Option<usiz
             forall|i: int, j: int| 0 <= i < j < r@.len() ==> r@[i].0 != r@[j].0,
             forall|k: Option<usize>| m@.dom().contains(k) ==> exists|i: int| 0 <= i < r@.len() && (#[trigger] r@[i]).0 == k,
 { unimplemented!() }
+
+// usize::next_power_of_two (std): the least power of two >= n   [assumed contract of std]
+pub open spec fn is_pow2(n: nat) -> bool { exists|k: nat| n == p2(k) }
+pub open spec fn np2(n: nat) -> nat { choose|r: nat| is_pow2(r) && r >= n && (forall|q: nat| is_pow2(q) && q >= n ==> r <= q) }
+pub assume_specification[usize::next_power_of_two](n: usize) -> (r: usize)
+    requires n <= 0x8000_0000_0000_0000
+    ensures is_pow2(r as nat), r >= n, forall|q: nat| is_pow2(q) && q >= n ==> r <= q, r >= 1, n >= 1 ==> r < 2 * n, r == np2(n as nat);
+// Rust allocation limit: a Vec of non-zero-sized elements holds at most isize::MAX elements   [assumed]
+#[verifier::external_body] pub proof fn axiom_vec_len_bound<T>(v: &Vec<T>) ensures v@.len() <= 0x7fff_ffff_ffff_ffff { }
